@@ -20,7 +20,7 @@ import Verif.Model.Token
         for every key after the operations (`xid/xname/xtok` or `-`)
   convert type=<Go type> exp=x<projection of the provisioner as configured>
      -> conv:<type>:<that projection> (ProvisionerToLinkedca ; ProvisionerToCertificates must preserve it)
-  apisurface / routes                            -> the model's tables `apiSurface`, `apiRoutes`
+  apisurface / routes / ctxmethods                            -> the model's tables `apiSurface`, `apiRoutes`
   flow fn=<function of authority/authorize.go>   -> its statement skeleton from the model's table `flows`
   methods type=<provisioner Go type>             -> the Authorize* methods it declares (`declared`)
   handler name=<Go function name>
@@ -216,6 +216,9 @@ def evalSurface : String :=
   "apisurface:" ++ ";".intercalate (apiSurface.map fun e =>
     e.1 ++ ":auth=" ++ (if e.2.1 then "1" else "0") ++ ":" ++ ",".intercalate e.2.2)
 
+def evalCtxMethods : String :=
+  "ctxmethods:" ++ ";".intercalate (handlerMethods.map fun h => h.1 ++ ":" ++ ",".intercalate h.2)
+
 def evalRoutes : String :=
   "routes:" ++ ";".intercalate (apiRoutes.map fun r => r.1 ++ " " ++ r.2.1 ++ " " ++ r.2.2)
 
@@ -231,6 +234,7 @@ def eval (line : String) : Option String :=
     pure ("conv:" ++ (← lookup kv "type") ++ ":" ++ String.ofList (e.map Char.ofNat))
   | "apisurface" :: _ => some evalSurface
   | "routes" :: _ => some evalRoutes
+  | "ctxmethods" :: _ => some evalCtxMethods
   | "coll" :: _ => evalColl (kvs line)
   | "flow" :: _ => evalFlow (kvs line)
   | "methods" :: _ => evalMethods (kvs line)
